@@ -39,7 +39,7 @@ def queue_lin_prop(config):
         return "C04"
     if config.startswith(("vyu_", "nib_")):
         return "C05"
-    if config.startswith(("kir_", "kib_")):
+    if config.startswith(("kir_", "kib_", "big_kir_", "big_kib_")):
         return "C06"
     return "C04"
 
@@ -54,7 +54,7 @@ def attribute(scenario, config, kind, primary, weak):
         lin = queue_lin_prop(config)
         if kind.startswith("elem-"):
             props = ["C07"]
-        elif kind in ("not-linearizable", "drain-incomplete"):
+        elif kind in ("not-linearizable", "drain-incomplete") or kind.startswith("big-"):
             props = [lin]
         elif kind in ("solo-bound", "solo-blocked"):
             props = ["C16"]
@@ -175,6 +175,47 @@ PLANS["C06"] = plan_queue_lin(
     "as C04 but against a k-out-of-order FIFO (pop may return any of the k oldest; 'empty' legal iff size = 0, or size < k while "
     "overlapping another operation; bounded variant: rejection legal only with >= (segments-1)*k+1 stored values); the random "
     "start index is drawn from the scheduler PRNG through hook H1", ["empty_under_overlap"], execs_quick=1500, execs_thorough=20000)
+
+
+def _with_big_sweeps(plan):
+    """C06 quantifies over every construction the constructor accepts, 'including products above 2^16': sequential sweeps (fill, drain,
+    bursts across the wrap-around) over large constructions, judged operation by operation by a sequential k-FIFO reference model."""
+    base_targets, base_jobs, base_gates = plan["targets"], plan["jobs"], plan["gates"]
+
+    def targets(tier):
+        t = base_targets(tier)
+        for extra in [("queues.norecl", "xrt-prod"), ("queues.R5", "xrt-prod"), ("queues.R2", "xrt-prod"), ("queues.norecl", "asan"), ("queues.R5", "asan")]:
+            if extra not in t:
+                t.append(extra)
+        return t
+
+    def jobs(tier, seed, list_configs):
+        j = base_jobs(tier, seed, list_configs)
+        execs = 3 if tier == "quick" else 20
+        for t, v in [("queues.norecl", "xrt-prod"), ("queues.R5", "xrt-prod"), ("queues.R2", "xrt-prod"), ("queues.norecl", "asan"), ("queues.R5", "asan")]:
+            for c in cfgs_matching(list_configs, t, v, r"^big_"):
+                env = {"ASAN_OPTIONS": "detect_leaks=0:abort_on_error=0", "UBSAN_OPTIONS": "print_stacktrace=1"} if v == "asan" else {}
+                j.append(dict(target=t, variant=v, timeout=300 if tier == "quick" else 1500, env=env,
+                              args=["--cfg", c, "--mode", "sc", "--seed", str(seed + 31), "--execs", str(execs)]))
+        return j
+
+    def gates(tier, agg, counters, per_config, distinct):
+        msgs = base_gates(tier, agg, counters, per_config, distinct)
+        for c, minimum in {"big_ops": 1000000, "big_ring_wraps": 10, "big_pushes_rejected": 10, "big_pops_empty": 10}.items():
+            if counters.get(c, 0) < minimum:
+                msgs.append("counter %s = %d < %d" % (c, counters.get(c, 0), minimum))
+        return msgs
+
+    plan = dict(plan)
+    plan.update(targets=targets, jobs=jobs, gates=gates,
+                rule=plan["rule"] + "; plus (big_*) sequential sweeps of 10^5..10^6 operations each over constructions with k*segments in {40000, 65535, 65536, "
+                "66560, 65792 (k=256), 2^17 (k=1)} and an unbounded queue with k=70000: fill until rejected, drain, random bursts across the wrap-around, "
+                "every operation judged by a sequential k-FIFO reference model (rank of the popped value among the stored ones < k, EMPTY only when "
+                "nothing is stored, rejection only with >= (segments-1)*k+1 stored), under xrt (heap shadow) and natively under ASan+UBSan")
+    return plan
+
+
+PLANS["C06"] = _with_big_sweeps(PLANS["C06"])
 PLANS["C07"] = plan_queue_lin(
     "C07", r"_(uptr|raw|tok)$", R8, R8 + RPLUS, True,
     "each evaluation = one generated queue program with tracked elements (unique_ptr<Tracked>, Tracked*, non-trivial movable Tok) "
@@ -401,7 +442,7 @@ PLANS["C13"] = plan_simple(
     "readers, <= 5 operations each, under one seeded schedule (every seq_cst operation, mutex operation and yield is a scheduling point); functor "
     "overlap monitor per instance address, per-instance update logs, WGL search against an atomic register", {"reads_between_switch_and_second_apply": 500}, chunks=16)
 
-def plan_harris(prop, pattern, execs_quick, execs_thorough, rule, gate_counters):
+def plan_harris(prop, pattern, execs_quick, execs_thorough, rule, gate_counters, seq=False):
     def targets(tier):
         recls = R8 if tier == "quick" else R8 + [8, 9, 11, 12]
         return [("harris.R%d" % r, "xrt-prod") for r in recls]
@@ -409,7 +450,12 @@ def plan_harris(prop, pattern, execs_quick, execs_thorough, rule, gate_counters)
     def jobs(tier, seed, list_configs):
         recls = R8 if tier == "quick" else R8 + [8, 9, 11, 12]
         execs = execs_quick if tier == "quick" else execs_thorough
-        return generic_jobs(list_configs, "harris", recls, pattern, "xrt-prod", "sc", execs, seed, per_job=2 if tier == "quick" else 1)
+        j = generic_jobs(list_configs, "harris", recls, pattern, "xrt-prod", "sc", execs, seed, per_job=2 if tier == "quick" else 1)
+        if seq:
+            # sequential differential runs against std::map: 729 executions = the complete enumeration of all sequences of 4 operations
+            # (243 slices) + 486 long random sequences per configuration
+            j += generic_jobs(list_configs, "harris", recls, r"^seq_", "xrt-prod", "sc", 729 if tier == "quick" else 7290, seed + 17, per_job=2)
+        return j
 
     def gates(tier, agg, counters, per_config, distinct):
         msgs = []
@@ -430,7 +476,11 @@ PLANS["C08"] = plan_harris(
     "each evaluation = 2-4 threads x <= 6 operations (emplace / emplace_or_get / get_or_emplace(_lazy) / operator[] / erase(key) / find+erase(iterator) / "
     "find / contains) over a universe of 2-4 keys on harris_michael_list_based_set (less / greater) and harris_michael_hash_map (1/2/4 buckets, identity / "
     "constant / order-reversing / two-valued hash, memoize_hash on/off, int keys and a non-trivially movable key type whose moved-from value differs) with unique values per insertion, plus a final iteration; judged per key "
-    "(P-compositionality) by a WGL search against a sequential set/map", {"wgl_nodes": 1000})
+    "(P-compositionality) by a WGL search against a sequential set/map; plus (seq_*) single-threaded differential runs against std::map / std::set "
+    "for every configuration and reclaimer: the complete enumeration of all 104 976 sequences of 4 operations over 9 operation kinds x 2 keys, and "
+    "random sequences of 100-500 operations over 3-40 keys, every result compared with the reference container, the whole content compared by "
+    "iteration (the set in the order of its compare functor), and the iterator returned by erase(iterator) checked (set: the successor)",
+    {"wgl_nodes": 1000, "seq_exhaustive_sequences": 104976, "seq_random_sequences": 1000}, seq=True)
 PLANS["C09"] = plan_harris(
     "C09", r"^trav_", 5000, 40000,
     "each evaluation = one traversing thread (1-2 full traversals with pre-/post-increment, iterator copies, optional erase(iterator) at position 0-2) and "
@@ -586,7 +636,7 @@ NATIVE = {
     "C05": [("queues.norecl", None, r"^(vyu_|nib_c[2-9])")],
     "C06": [("queues", [2, 3, 5, 7], r"^kir_"), ("queues.norecl", None, r"^kib_")],
     "C07": [("queues", [0, 2, 5], r"."), ("queues.norecl", None, r"^(vyu_|nib_c[2-9]|kib_)")],
-    "C08": [("harris", _NR, r"^lin_")],
+    "C08": [("harris", _NR, r"^(lin|seq)_")],
     "C09": [("harris", _NR, r"^trav_")],
     "C10": [("vyukov", [3, 4, 5, 6, 7], r"^(lin|seq)_")],
     "C11": [("vyukov", [3, 4, 5, 6, 7], r"^(iter|seq)_")],
@@ -663,10 +713,11 @@ META = {
                 level_text="Iterator traversal with erase(iterator) at arbitrary positions concurrently with lock-free readers and writers waiting for the same buckets; every bucket "
                            "must be usable afterwards (probe by a managed thread, hang = violation).",
                 level_note=_LEVEL_NOTE),
-    "C08": dict(design_ref="DESIGN.md 5/C08", technique="runtime monitoring: recorded histories under a controlled scheduler + per-key WGL linearizability oracle (set / map with per-insertion value ids)",
+    "C08": dict(design_ref="DESIGN.md 5/C08", technique="runtime monitoring: recorded histories under a controlled scheduler + per-key WGL linearizability oracle (set / map with per-insertion value ids) + differential monitor vs std::map / std::set over bounded-exhaustive and long random single-threaded sequences",
                 level_text="Conflict-maximising key universes (2-4 keys), colliding and order-reversing hashes, memoize on/off, 8 reclaimers (12 in the thorough tier); "
-                           "every per-key sub-history is decided exactly.",
-                level_note=_LEVEL_NOTE + " The long single-threaded differential runs against std::set / std::map of the design are not built."),
+                           "every per-key sub-history is decided exactly; every single-threaded sequence of 4 operations over two keys and long random "
+                           "sequences are compared step by step with std::map / std::set.",
+                level_note=_LEVEL_NOTE),
     "C09": dict(design_ref="DESIGN.md 5/C09", technique="runtime monitoring: traversal monitor (yield log vs recorded update history, one-sided interval reasoning) + heap shadow oracle",
                 level_text="Traversals overlapping inserts and erases, including erase of the current element under the iterator, iterator copies and the iterator's own "
                            "erase; only definite facts are used, so a verdict never depends on timing luck.",
@@ -716,9 +767,10 @@ META = {
                 level_text="Bounded queues with capacities 1-8 (several wrap-arounds per history), strong and weak operations mixed, judged by the exact linearizability "
                            "search against a bounded FIFO with the weakest reading of 'full' the property allows.",
                 level_note=_LEVEL_NOTE),
-    "C06": dict(design_ref="DESIGN.md 5/C06", technique="runtime monitoring: recorded histories + WGL oracle (k-out-of-order FIFO), recorded random start index (hook H1)",
+    "C06": dict(design_ref="DESIGN.md 5/C06", technique="runtime monitoring: recorded histories + WGL oracle (k-out-of-order FIFO), recorded random start index (hook H1) + sequential reference-model monitor over long sweeps of large constructions (k*segments around and above 2^16)",
                 level_text="k in 1..4, 1-5 segments, all reclaimers the queue compiles with; slot choice is a recorded scheduler decision; conservation and k-relaxation are "
-                           "decided per history by the linearizability search against the k-FIFO model.",
+                           "decided per history by the linearizability search against the k-FIFO model; constructions with k*segments from 40000 to 2^17 are swept "
+                           "sequentially (fill / drain / bursts across the wrap-around) against a reference model.",
                 level_note=_LEVEL_NOTE),
     "C07": dict(design_ref="DESIGN.md 5/C07", technique="runtime monitoring: tracked element objects (ownership state machine) + census after queue destruction + heap shadow (double free)",
                 level_text="All seven queue types with unique_ptr, raw pointer and non-trivial movable elements; queues are destroyed at random fill levels including after "
